@@ -35,6 +35,8 @@ const (
 	chanB = "channel-1" // the "local" end: incoming packets arrive here
 	chanC = "channel-2" // second loop-back pair, used by outgoing legs only
 	chanD = "channel-3"
+	chanE = "channel-4" // third pair, closed after the handshake: transfers over it fail late (after the escrow)
+	chanF = "channel-5"
 	base  = "uatom" // native denom sent over chanA; arrives on chanB as the voucher denomIn
 	quote = "uusdc" // the swap output denom
 	mid   = "uosmo" // intermediate denom of series routes
@@ -153,7 +155,7 @@ func newEnv() *env {
 	e.relayer = h.Accts[7].Addr.String()
 
 	// channel handshakes over the localhost connection: channel-0 <-> channel-1 and channel-2 <-> channel-3
-	for _, pair := range [][2]string{{chanA, chanB}, {chanC, chanD}} {
+	for _, pair := range [][2]string{{chanA, chanB}, {chanC, chanD}, {chanE, chanF}} {
 		chanA, chanB := pair[0], pair[1]
 		e.must(func(ctx sdk.Context) error {
 			_, err := a.IBCKeeper.ChannelOpenInit(ctx, channeltypes.NewMsgChannelOpenInit(port, transfertypes.V1, channeltypes.UNORDERED,
@@ -173,6 +175,20 @@ func newEnv() *env {
 			_, err = a.IBCKeeper.ChannelOpenConfirm(ctx, channeltypes.NewMsgChannelOpenConfirm(port, chanB, localhost.SentinelProof, proofHeight, e.relayer))
 			return err
 		})
+	}
+
+	// close the third pair (the transfer application does not allow a user to close a channel, so the
+	// channel ends are set to CLOSED directly, as a counterparty-initiated close would leave them)
+	{
+		ctx := h.Ctx()
+		for _, ch := range []string{chanE, chanF} {
+			c, ok := a.IBCKeeper.ChannelKeeper.GetChannel(ctx, port, ch)
+			if !ok {
+				panic("setup: channel " + ch + " missing")
+			}
+			c.State = channeltypes.CLOSED
+			a.IBCKeeper.ChannelKeeper.SetChannel(ctx, port, ch, c)
+		}
 	}
 
 	// bring a large amount of the voucher denom into existence (plain transfer to the LP)
@@ -304,11 +320,7 @@ func (e *env) bal(a sdk.AccAddress, d string) sdkmath.Int { return e.h.Bal(e.h.C
 // x is escrowed or burned by an outgoing transfer and falls by x on a refund, an unescrow or a mint.
 func (e *env) locked(d string) sdkmath.Int {
 	ctx := e.h.CtxAt(e.now)
-	s := sdkmath.ZeroInt()
-	for _, ch := range []string{chanA, chanB, chanC, chanD} {
-		s = s.Add(e.h.Bal(ctx, transfertypes.GetEscrowAddress(port, ch), d))
-	}
-	return s.Sub(e.h.Supply(ctx, d))
+	return e.escrowed(d).Sub(e.h.Supply(ctx, d))
 }
 
 func (e *env) incoming() []swaptypes.IncomingInFlightPacket {
@@ -385,4 +397,21 @@ func (e *env) modRest() sdkmath.Int {
 		}
 	}
 	return t
+}
+
+// escrowed = balance of d over the escrow accounts of all six channel ends
+func (e *env) escrowed(d string) sdkmath.Int {
+	ctx := e.h.CtxAt(e.now)
+	s := sdkmath.ZeroInt()
+	for _, ch := range []string{chanA, chanB, chanC, chanD, chanE, chanF} {
+		s = s.Add(e.h.Bal(ctx, transfertypes.GetEscrowAddress(port, ch), d))
+	}
+	return s
+}
+
+// bankTotals = [supply in; supply out; escrowed in; escrowed out]
+func (e *env) bankTotals() []string {
+	ctx := e.h.CtxAt(e.now)
+	z := func(x sdkmath.Int) string { return x.BigInt().String() }
+	return []string{z(e.h.Supply(ctx, e.denomIn)), z(e.h.Supply(ctx, quote)), z(e.escrowed(e.denomIn)), z(e.escrowed(quote))}
 }
